@@ -51,9 +51,14 @@ def main(argv):
         w = World()
         rep.analysed = {"files": w.fe.summary(), "counts": w.fe.counts(), "casadi_importable_in_checker": casadi_importable,
                         "python": sys.version.split()[0]}
+        import sa.decide
+        if tier == "thorough" and "VERIF_DECISION_SECONDS" not in os.environ:
+            sa.decide.DECISION_SECONDS = 180.0
         mod.run(w, rep, tier)
         rep.analysed["interpreter_calls"] = w.it.calls
         rep.analysed["interpreter_steps"] = w.it.steps
+        from sa.decide import STATS
+        rep.analysed["decisions"] = dict(STATS, slowest_s=round(STATS["slowest_s"], 2))
         return rep.finish()
     except AnchorMissing as e:
         print("ANALYSIS-ERROR: anchor missing: %s" % e)
